@@ -97,6 +97,10 @@ func c04(r *Run) {
 	// bytes sent before the sender closed are offered to the handler before end-of-stream (C06.R4)
 	if w.Cfg.Name == "linux" {
 		r.borrow([]string{"C06.R4:"}, "C06.R4", "C04.R4", func() { c06(r) })
+		// a handler installed late still gets what was buffered before it (C06.R3)
+		r.borrow([]string{"C06.R3:SetOnRequest"}, "C06.R3", "C04.R7", func() { c06(r) })
+		// the private copies handed to the reader are not recycled under it (C03.R4)
+		r.borrow([]string{"C03.R4:private-copy-is-heap"}, "C03.R4", "C04.R8", func() { c03(r) })
 		// the sender's nodes keep their memory until it was sent: split ownership (C02.R4 / C03)
 		r.borrow([]string{"C02.R4:WriteDirect:unlinked-split"}, "C02.R4", "C04.R1", func() { c02(r) })
 	}
@@ -105,7 +109,7 @@ func c04(r *Run) {
 		// the reader side: bytes that arrived before the close are delivered before end-of-stream is reported (C07.R5), and the
 		// buffer's accounting primitives are used by every consuming method (C01.R2/R3)
 		r.borrow([]string{"C07.R5:closed-only-when-short", "C07.R5:timeout-only-when-short"}, "C07.R5", "C04.R4", func() { c07(r) })
-		r.borrow([]string{"C01.R2:", "C01.R3:"}, "C01.R", "C04.R6.", func() { c01(r) })
+		r.borrow([]string{"C01.R2:", "C01.R3:", "C01.R8:"}, "C01.R", "C04.R6.", func() { c01(r) })
 	}
 
 	// ---- R4 hang-up after drain; R5 flush hand-off ----------------------------------------------------
